@@ -26,6 +26,12 @@ def cases(tier, seed):
     if tier == "thorough":
         cs.append({"asset": "example_plt_2d", "sel_seed": seed})
         cs.append({"kind": "repo_suite", "sel_seed": seed})
+    # sequences across tools: 2D plotfiles written by mandoline's own plotfile format from 3D slices
+    rng2 = random.Random(seed + 808)
+    for k in range(3 if tier == "quick" else 40):
+        g = dict(seed=rng2.randrange(10 ** 9), ndims=3, nlevels=2 + k % 2, bf=2, base_blocks=(2, 3), maxsz=4,
+                 names=["f0", "f1", "f2"], payload="random", refine_frac=0.3)
+        cs.append({"kind": "from_slice", "gen": g, "fmt": {}, "sel_seed": seed * 61 + k})
     # a deep, narrow hierarchy: 11 levels (Level_10 sorts between Level_1 and Level_2 as a name)
     cs.append({"gen": dict(seed=seed + 4242, ndims=2, nlevels=1, base=[2, 2], bf=2, maxsz=2, names=["f0", "f1"],
                            payload="random", nfiles=1), "fmt": {}, "deepen": 11, "sel_seed": seed * 59 + 4242, "deep": True})
@@ -61,9 +67,39 @@ def run_case(case, work, rec):
         return
     from amr_kitchen.mandoline import Mandoline
     rng = random.Random(case["sel_seed"])
+    if case.get("kind") == "from_slice":
+        # a sequence across tools: the 2D plotfile is what mandoline itself wrote for a 3D slice, at a position
+        # where the plane meets no box of the finest level - that level is kept with zero boxes
+        m3, p3 = workload.build(case, work, name="plt3d")
+        fin = m3.nlevels - 1
+        found = None
+        for n in rng.sample(range(3), 3):
+            dxn = m3.dx[fin][n]
+            spans = sorted((b.lo[n], b.hi[n] + 1) for b in m3.boxes[fin])
+            ncell = m3.grid_sizes[fin][n]
+            free = [k for k in range(ncell) if not any(lo - 1 <= k <= hi for lo, hi in spans)]
+            if free:
+                k = rng.choice(free)
+                found = (n, m3.geo_low[n] + (k + 0.3) * dxn)
+                break
+        if found is None:
+            rec.skip("the finest level spans the whole domain along every direction")
+            return
+        path = os.path.join(work, "slice2d")
+        pools.CTL.reset(mode="inproc", seed=5)
+        poison.set_poison(np.nan)
+        try:
+            Mandoline(p3, fields=list(m3.names[:2]), serial=True, verbose=0).slice(normal=found[0], pos=found[1], outfile=path, fformat="plotfile")
+        except Exception as e:
+            rec.skip("mandoline did not write a slice there (C16's subject)")
+            return
+        rec.count("inputs_written_by_mandoline")
+        case = dict(case, asset="slice2d")
     if "asset" in case:
-        path = os.path.join(common.REPO, "test_assets", case["asset"])
+        path = path if case.get("kind") == "from_slice" else os.path.join(common.REPO, "test_assets", case["asset"])
         r = refparse.parse(path)
+        if any(len(lev["idx"]) == 0 for lev in r["levels"]):
+            rec.count("inputs_with_an_empty_level")
         m = gen.Model()
         m.ndims = 2; m.nlevels = r["finest"] + 1; m.names = r["names"]; m.nfields = len(m.names)
         m.grid_sizes = r["grid_sizes"]; m.geo_low = r["geo_low"]; m.geo_high = r["geo_high"]; m.dx = r["dx"]
@@ -85,7 +121,8 @@ def run_case(case, work, rec):
     if len(names) >= 2:
         flists.append([names[-1], "grid_level", names[0]])
     if "asset" in case:
-        flists = [[names[0]], [names[-1], "grid_level"], [names[2], names[1]]]
+        flists = [[names[0]], [names[-1], "grid_level"], [names[2], names[1]]] if len(names) >= 3 else \
+            [[names[0]], [names[-1], "grid_level"], ["all"], ["grid_level"]]
     deep = case.get("deep", False)
     if deep:        # 11 levels, a 2048 x 4096 covering grid: one field list, the limits that matter
         flists = [[names[0], "grid_level"]]
